@@ -1143,3 +1143,42 @@ Lemma bsearch_ssleft (c : list R) x : Asc c -> bsearch (length c) c x 0 (length 
 Proof.
   intros Ha. apply bsearch_ssleft_gen; try lia; try exact Ha; intros; lia.
 Qed.
+
+(* ------------------------------------------------------------------ *)
+(* the whole call (C15/Call.v): outside the recorded defects it returns the values the
+   theorems above speak about                                              *)
+From Verif Require Import C15.Call.
+
+Lemma interp_call_float_ok (var : variants) k ss (cvs : list (list R)) flat i :
+  malformed cvs i None = false -> (mesh1_raises var && mesh1 i = false)%bool ->
+  degenerate (schemes_of k ss cvs) cvs = false ->
+  interp_call var k ss cvs DFloat flat i None = Ok (run k ss cvs flat i).
+Proof.
+  intros Hm H1 Hd. unfold interp_call. rewrite Hm, H1. destruct k; try rewrite Hd; reflexivity.
+Qed.
+
+(* admissible axes are never degenerate *)
+Lemma good_not_degenerate (l : list (scheme * list R)) :
+  Forall (fun t => good_axis (fst t) (snd t)) l -> degenerate (map fst l) (map snd l) = false.
+Proof.
+  unfold degenerate. induction 1 as [|[s c] r [Ha Hlen] Hr IH]; [reflexivity|].
+  cbn [map combine existsb fst snd]. rewrite IH. cbn [fst snd] in Hlen.
+  destruct s; [reflexivity|]. destruct c as [|a [|b c]]; try reflexivity.
+  destruct Hlen as [Hn|[Hs _]]; [cbn in Hn; exfalso; apply (Nat.nle_succ_diag_l 1); exact Hn | discriminate].
+Qed.
+
+(* in the repaired variant, a mesh-grid call and the point-array call on the Cartesian product
+   give the same outcome *)
+Lemma repaired_mesh_equals_points (l : list (scheme * list R * list R)) (flat : list R) :
+  let var := {| int_raises := false; mesh1_raises := false |} in
+  let ss := map m_s l in let cvs := map m_c l in let mesh := map m_xs l in
+  degenerate ss cvs = false -> malformed cvs (IPoints (cart mesh)) None = false ->
+  interp_call var KPerAxis ss cvs DFloat flat (IMesh mesh) None
+  = interp_call var KPerAxis ss cvs DFloat flat (IPoints (cart mesh)) None.
+Proof.
+  intros var ss cvs mesh Hd Hm.
+  assert (Hmm : malformed cvs (IMesh mesh) None = false).
+  { unfold malformed, cvs, mesh. rewrite !map_length, Nat.eqb_refl. reflexivity. }
+  unfold interp_call. rewrite Hm, Hmm. cbn [mesh1_raises var andb schemes_of]. rewrite Hd.
+  unfold run. cbn [schemes_of]. unfold ss, cvs, mesh. rewrite peraxis_mesh_pointwise. reflexivity.
+Qed.
